@@ -217,57 +217,39 @@ func s1(w *World, r *Report) {
 func s2(w *World, r *Report) {
 	fn := needFn(r, "S-2", w, fref{pkgCT, "", "VerifyTrxRLP"})
 	if fn != nil {
-		pre := w.callsTo(fn, fref{pkgCT, "", "PreImageToSignTrxRLP"})
-		s2a := w.callsTo(fn, fref{"types/crypto", "", "Sig2Addr"})
-		if len(pre) != 1 || len(s2a) != 1 {
-			r.Violate("S-2", "VerifyTrxRLP:shape", "VerifyTrxRLP must build the RLP pre-image and recover the signer exactly once", nil, fnSite(w, fn))
-		} else {
-			pa := pre[0].Common().Args
-			r.Check(len(pa) == 2 && pa[0] == ssa.Value(fn.Params[0]) && pa[1] == ssa.Value(fn.Params[1]), "S-2", "VerifyTrxRLP:preimage-args", "pre-image of this tx for this chain id", "pre-image is not built from (tx, chainId)", site(w, pre[0]))
-			img := extractOf(callValue(pre[0]), 0)
-			sa := s2a[0].Common().Args
-			r.Check(len(sa) == 2 && img != nil && sameValue(sa[0], img) && w.Canon(sa[1]) == "p0.Sig", "S-2", "VerifyTrxRLP:recover-args", "signer recovered from (pre-image, tx.Sig)", "Sig2Addr is not given the pre-image and the transaction's own signature", site(w, s2a[0]))
-			addr := extractOf(callValue(s2a[0]), 0)
-			var cmp *Guard
-			if addr != nil {
-				want1 := "(bytes.Compare(" + w.Canon(addr) + ", p0.From) != 0)"
-				want2 := "(bytes.Compare(p0.From, " + w.Canon(addr) + ") != 0)"
-				want3 := "!bytes.Equal(" + w.Canon(addr) + ", p0.From)"
-				want4 := "!bytes.Equal(p0.From, " + w.Canon(addr) + ")"
-				want5 := "(" + w.Canon(addr) + ".Compare(p0.From) != 0)"
-				want6 := "(p0.From.Compare(" + w.Canon(addr) + ") != 0)"
-				for _, g := range w.Guards(fn) {
-					switch g.Cond {
-					case want1, want2, want3, want4, want5, want6:
-						cmp = g
-					}
-				}
+		// evaluated on the paths of VerifyTrxRLP with helpers expanded
+		preRef, s2aRef := fref{pkgCT, "", "PreImageToSignTrxRLP"}, fref{"types/crypto", "", "Sig2Addr"}
+		ev := func(in ssa.Instruction) string {
+			c, ok := in.(ssa.CallInstruction)
+			if !ok {
+				return ""
 			}
-			if cmp == nil {
-				r.Violate("S-2", "VerifyTrxRLP:address-compare", "no failing guard compares the full recovered address with tx.From", nil, fnSite(w, fn))
-			} else {
-				ok := true
-				for _, b := range fn.Blocks {
-					if ret, isR := lastInstr(b).(*ssa.Return); isR && w.errState(ret) != triNonNil && !cmp.Protects(b) {
-						ok = false
-					}
-				}
-				r.Check(ok, "S-2", "VerifyTrxRLP:address-compare", "inequality of recovered address and tx.From fails; every success return is behind it", "a success return of VerifyTrxRLP is not behind the address comparison", site(w, cmp.If))
+			switch {
+			case w.callIs(c.Common(), preRef):
+				return "PRE:" + w.canonCall(c.Common(), 0)
+			case w.callIs(c.Common(), s2aRef):
+				return "S2A:" + w.canonCall(c.Common(), 0)
 			}
-			// errors of both calls fail
-			for i, c := range []ssa.CallInstruction{pre[0], s2a[0]} {
-				ev := extractOf(callValue(c), []int{1, 2}[i])
-				ok := false
-				if ev != nil {
-					for _, g := range w.Guards(fn) {
-						if bo, isB := g.If.Cond.(*ssa.BinOp); isB && (sameValue(bo.X, ev) || sameValue(bo.Y, ev)) {
-							ok = true
-						}
-					}
-				}
-				r.Check(ok, "S-2", "VerifyTrxRLP:error:"+callName(c.Common()), "error fails the verification", "error of "+callName(c.Common())+" is ignored", site(w, c))
+			return ""
+		}
+		wantPre := "PRE:types.PreImageToSignTrxRLP(p0, p1)"
+		wantS2A := "S2A:crypto.Sig2Addr(types.PreImageToSignTrxRLP(p0, p1)#0, p0.Sig)"
+		base := w.runUnder(fn, nil, ev)
+		shape := base.complete && base.ok > 0
+		for _, p := range base.okEvents {
+			if len(p) != 2 || p[0] != wantPre || p[1] != wantS2A {
+				shape = false
 			}
 		}
+		r.Check(shape, "S-2", "VerifyTrxRLP:preimage-args", "every successful verification builds the pre-image of this tx for this chain id exactly once", "pre-image is not built from (tx, chainId) exactly once on every successful path", fnSite(w, fn))
+		r.Check(shape, "S-2", "VerifyTrxRLP:recover-args", "and recovers the signer from (that pre-image, tx.Sig) exactly once", "Sig2Addr is not given the pre-image and the transaction's own signature", fnSite(w, fn))
+		addr := `crypto\.Sig2Addr\(types\.PreImageToSignTrxRLP\(p0, p1\)#0, p0\.Sig\)#0$`
+		ok, why := w.failsUnder(fn, nil, AR(addr, "!=", `^p0\.From$`))
+		r.Check(ok, "S-2", "VerifyTrxRLP:address-compare", "when the recovered address differs from tx.From the verification has no successful path ("+why+")", "a success return of VerifyTrxRLP is not behind the comparison of the full recovered address with tx.From: "+why, fnSite(w, fn))
+		ok1, why1 := w.failsUnder(fn, nil, AR(`types\.PreImageToSignTrxRLP\(p0, p1\)#1$`, "!=", `^nil$`))
+		r.Check(ok1, "S-2", "VerifyTrxRLP:error:PreImageToSignTrxRLP", "error fails the verification", "error of PreImageToSignTrxRLP is ignored: "+why1, fnSite(w, fn))
+		ok2, why2 := w.failsUnder(fn, nil, AR(`crypto\.Sig2Addr\(.*\)#2$`, "!=", `^nil$`))
+		r.Check(ok2, "S-2", "VerifyTrxRLP:error:Sig2Addr", "error fails the verification", "error of Sig2Addr is ignored: "+why2, fnSite(w, fn))
 	}
 	pf := needFn(r, "S-2", w, fref{pkgCT, "", "PreImageToSignTrxRLP"})
 	if pf != nil {
